@@ -144,8 +144,10 @@ def stmt(s):
         return [N('Try', ln, body=stmts(s.body), handlers=handlers, orelse=stmts(s.orelse), final=stmts(s.finalbody))]
     if isinstance(s, ast.With):
         return [N('With', ln, items=[(expr(i.context_expr), expr(i.optional_vars)) for i in s.items], body=stmts(s.body))]
-    if isinstance(s, (ast.Import, ast.ImportFrom)):
-        return [N('Import', ln)]
+    if isinstance(s, ast.Import):
+        return [N('Import', ln, names=[(a.name, None, a.asname or a.name.split('.')[0]) for a in s.names])]
+    if isinstance(s, ast.ImportFrom):
+        return [N('Import', ln, names=[(s.module or '', a.name, a.asname or a.name) for a in s.names])]
     if isinstance(s, (ast.FunctionDef,)):
         return [N('FuncDef', ln, func=None, raw=s)]
     if isinstance(s, ast.ClassDef):
